@@ -122,7 +122,17 @@ func createASTTypeExpr(pkg string, t types.Type, varPool *VarPool, imports map[s
 		}, nil
 	case *types.Interface:
 		methodFields := make([]*ast.Field, 0, typ.NumMethods())
-		for method := range typ.Methods() {
+		// Embedded interfaces are written as such (their packages are imported for that purpose);
+		// only the methods declared by the literal itself are spelled out.
+		for i := 0; i < typ.NumEmbeddeds(); i++ {
+			expr, err := createASTTypeExpr(pkg, typ.EmbeddedType(i), varPool, imports)
+			if err != nil {
+				return nil, fmt.Errorf("embedded interface %d: %w", i, err)
+			}
+
+			methodFields = append(methodFields, &ast.Field{Type: expr})
+		}
+		for method := range typ.ExplicitMethods() {
 			expr, err := createASTTypeExpr(pkg, method.Signature(), varPool, imports)
 			if err != nil {
 				return nil, fmt.Errorf("method signature: %w", err)
